@@ -6,9 +6,9 @@
      AInv          the A layer (exactly once, correct index, return value) - must hold
      BInv          structural invariants of the model
      Termination   <>done under fairness (separate cfg)
-     CounterExact / NoRacePredicted   expected to FAIL for the split increments and the
-                   ticker's plain read: a prediction about the code, judged on the real
-                   code by the race detector, never a verdict by itself.
+     CounterExact / NoSplitRace / NoTickerRace   the counter discipline: a prediction about the
+                   code, judged on the real code by the race detector, never a verdict by
+                   itself (Legacy = TRUE reproduces the defect fixed in 4fe80e7).
    In simulation mode (RecordHist) the history of server answers, enqueue operations and
    matcher completions of each behaviour is exported and forced onto the real Scan by the
    harness (gated fake log + blocking hooks).  In generation mode (RecordHist, HistKinds =
@@ -19,6 +19,8 @@ EXTENDS CTScanner, Json
 CONSTANTS Starts, Sizes, MaxIdxs, Batches, NFs, NMs, KPs,   \* sets: the configurations explored
           MaxFaults,      \* server fault budget per scan (errors + truncated answers); 100 = unlimited
           CapF, CapJ,     \* channel capacities (1000 and 100000 in the code)
+          Legacy,         \* BOOLEAN: TRUE = counter discipline of the code before commit 4fe80e7 (split ++ on
+                          \* the three secondary counters, plain read of certsProcessed by the ticker)
           RecordHist,     \* BOOLEAN: keep the history (simulation / generation only)
           HistKinds       \* which events the history keeps: subset of {"ans", "enq", "proc"}
 
@@ -78,9 +80,11 @@ MatcherAdd(m) == /\ MAddEn(st, m) /\ st' = MAdd(st, m)
                     ELSE NoMon
                  /\ IF st'.M[m].pc = "idle" THEN H([t |-> "proc", i |-> st.M[m].idx]) ELSE UNCHANGED hist
 MatcherRest(m) == \/ MExitEn(st, m) /\ st' = MExit(st, m) /\ UNCHANGED hist /\ NoMon
-                  \/ MRdEn(st, m)   /\ st' = MRd(st, m)   /\ UNCHANGED hist /\ NoMon
-                  \/ MWrEn(st, m)   /\ st' = MWr(st, m)   /\ NoMon
-                                    /\ H([t |-> "proc", i |-> st.M[m].idx])
+                  \/ Legacy /\ MRdEn(st, m)   /\ st' = MRd(st, m)   /\ UNCHANGED hist /\ NoMon
+                  \/ Legacy /\ MWrEn(st, m)   /\ st' = MWr(st, m)   /\ NoMon
+                                              /\ H([t |-> "proc", i |-> st.M[m].idx])
+                  \/ ~Legacy /\ MIncEn(st, m) /\ st' = MInc(st, m)  /\ NoMon
+                                              /\ H([t |-> "proc", i |-> st.M[m].idx])
 Matcher(m) == MatcherTake(m) \/ MatcherAdd(m) \/ MatcherRest(m)
 
 Ticker == TickExitEn(st) /\ st' = TickExit(st) /\ UNCHANGED hist /\ NoMon
@@ -115,10 +119,11 @@ BInv == /\ \A i \in 1..Len(st.jobs) : st.jobs[i].idx = st.jobs[i].pos
         /\ st.jclosed => \A f \in DOMAIN st.F : st.F[f].pc = "done"   \* never send on a closed channel
         /\ Done => (st.jobs = <<>> /\ st.fetches = <<>> /\ st.todo = <<>>)
 
-\* predictions (expected to be violated for the code as it is)
+\* counter discipline: hold for the current code (Legacy = FALSE); with Legacy = TRUE TLC finds the lost
+\* update and both races - that was the prediction the race detector confirmed on the code before 4fe80e7
 CounterExact == Done => CountersOK(st.cfg, st.ctr)
 NoSplitRace == ~SplitRace(st)
-NoTickerRace == ~TickerRace(st)
+NoTickerRace == ~(Legacy /\ TickerRace(st))
 
 \* export of simulated behaviours
 Emit == (RecordHist /\ Done) =>
